@@ -236,7 +236,7 @@ func (a *absCtx) identity(api string, c *Cfg, v *Val, ms []*Matcher) (string, bo
 		if len(ms) == 0 && v != nil {
 			text, ok := "", false
 			switch v.K {
-			case "str", "bytes":
+			case "str", "bytes", "rawmsg":
 				b, _ := base64.StdEncoding.DecodeString(v.B64)
 				text, ok = string(b), true
 			case "go":
@@ -526,6 +526,10 @@ func abstractRun(a *absCtx, r *ScenarioRun, drvDir string) ([]map[string]any, er
 				}
 				rec["mfail"] = mf
 				rec["lossless"] = losslessJSON(a, st, e, logKind(logs))
+				rec["bufsame"] = true
+				if st.Val != nil && (st.Val.K == "bytes" || st.Val.K == "rawmsg") && e.Buf != "" {
+					rec["bufsame"] = e.Buf == st.Val.B64
+				}
 				rec["inj"] = false
 				if x.Text != nil {
 					rec["known"] = true
@@ -608,7 +612,7 @@ func losslessJSON(a *absCtx, st *Step, e *RawEvent, logk string) string {
 	}
 	in, ok := "", false
 	switch st.Val.K {
-	case "str", "bytes":
+	case "str", "bytes", "rawmsg":
 		b, _ := base64.StdEncoding.DecodeString(st.Val.B64)
 		in, ok = string(b), true
 	case "gojson":
@@ -631,26 +635,31 @@ func losslessJSON(a *absCtx, st *Step, e *RawEvent, logk string) string {
 			b, _ := base64.StdEncoding.DecodeString(f.B64)
 			stored := string(b)
 			if st.API == "json" {
-				// the frame this call wrote: the last header of this test in the touched file
+				// the frame this call wrote is one of this test's frames in the touched file (the
+				// harness does not compute ordinals): some frame of the test must hold the value
 				lines := strings.Split(stored, "\n")
-				start := -1
 				pre := "[" + e.T + " - "
+				found := false
 				for i, l := range lines {
-					if strings.HasPrefix(l, pre) && strings.HasSuffix(l, "]") {
-						start = i
+					if !(strings.HasPrefix(l, pre) && strings.HasSuffix(l, "]")) {
+						continue
 					}
-				}
-				if start < 0 {
-					return "no"
-				}
-				end := len(lines)
-				for i := start + 1; i < len(lines); i++ {
-					if lines[i] == "---" {
-						end = i
+					end := len(lines)
+					for j := i + 1; j < len(lines); j++ {
+						if lines[j] == "---" {
+							end = j
+							break
+						}
+					}
+					if got, ok := canonJSON(strings.Join(lines[i+1:end], "\n"), true); ok && got == want {
+						found = true
 						break
 					}
 				}
-				stored = strings.Join(lines[start+1:end], "\n")
+				if found {
+					return "yes"
+				}
+				return "no"
 			}
 			got, ok := canonJSON(stored, true)
 			if !ok || got != want {
